@@ -139,7 +139,7 @@ CLAIMS.update({
                   "with shorthand / literal keys / rest) the engine equals a pure matcher `pmatch`, succeeds iff the declarative "
                   "projection exists with fresh distinct names, binds every leaf to its projection, allocates exactly the rest cells and "
                   "changes nothing else; exact error at every depth (computed keys and index/property targets stay at depth 1). Tie + Python destructuring "
-                  "reference and in-language round-trip laws over patterns × sources × positions. Known finding K3 reported as KNOWN-FINDING.",
+                  "reference and in-language round-trip laws over patterns × sources × positions (keys `_` included: defect D10, repaired).",
              ref="§6 C13", technique="Lean 4 bind/spread theorems + pattern×source exhaustive correspondence + Python reference oracle"),
  "C14": dict(text="Lean theorems: arguments evaluated once left to right before the callee, arity rule, parameters live in a fresh scope cell "
                   "on the closure chain (assigning one changes only that cell; mutating a passed container is shared), provenance: property/index "
